@@ -97,3 +97,55 @@ func VerifH_C06_RescaleToAndSetScale() {
 	}
 	vCover("C06-rescaleto-setscale-reached")
 }
+
+// Further receivers and constants: MulThenAdd without relinearisation accumulates all three components on a receiver
+// that already holds a degree-2 ciphertext; Rescale into a receiver of lower degree keeps every component of its
+// input; a constant with an integer real part and a fractional imaginary part is not a Gaussian integer (the product
+// is lifted by the top prime and the scale records it), a Gaussian integer leaves the scale alone.
+func VerifH_C06_ReceiversAndConstants() {
+	c, eval := vSetup()
+	params := c.Params
+	level := params.MaxLevel()
+	r := params.RingQ().AtLevel(level)
+	a := vAtomCiphertext(c, 1, level, "a", 256)
+	b := vAtomCiphertext(c, 1, level, "b", 256)
+	acc := vAtomCiphertext(c, 2, level, "acc", 65536)
+	pacc := vPhase(c, acc)
+	want := r.NewPoly()
+	r.MulCoeffsBarrett(vPhase(c, a), vPhase(c, b), want)
+	r.Add(want, pacc, want)
+	vAssert(eval.MulThenAdd(a, b, acc) == nil, "MulThenAdd-on-a-degree-2-receiver-no-error")
+	vAssert(acc.Degree() == 2, "MulThenAdd-on-a-degree-2-receiver-keeps-degree-2")
+	vAssertPolyEq(r, vPhase(c, acc), want, "MulThenAdd-accumulates-every-component-of-the-product")
+	// Rescale of a degree-2 product into a degree-1 receiver
+	prod := NewCiphertext(params, 2, level)
+	vAssert(eval.Mul(a, b, prod) == nil, "Mul-no-error")
+	out := NewCiphertext(params, 1, level)
+	vAssert(eval.Rescale(prod, out) == nil, "Rescale-into-a-receiver-of-lower-degree-no-error")
+	vAssert(out.Degree() == 2 && out.Level() == level-1, "Rescale-receiver-takes-the-degree-of-its-input")
+	if out.Degree() == 2 && out.Level() == level-1 {
+		rl := params.RingQ().AtLevel(level - 1)
+		lhs := rl.NewPoly()
+		rl.MulScalar(vPhase(c, out), r.SubRings[level].Modulus, lhs)
+		pp := vPhase(c, prod)
+		pp.Resize(level - 1)
+		vAssertNoiseFree(rl, lhs, pp, true, 60, "Rescale-receiver-holds-every-component-divided-by-the-last-prime")
+	}
+	// constants
+	for ci, cs := range []struct {
+		v    complex128
+		gint bool
+	}{{complex(2, 0.25), false}, {complex(0, -0.75), false}, {complex(-3, 2), true}, {complex(4, 0), true}} {
+		tag := "constant" + vItoa(ci)
+		o := NewCiphertext(params, 1, level)
+		vAssert(eval.Mul(a, cs.v, o) == nil, tag+"-Mul-no-error")
+		ratio := new(big.Float).SetPrec(256).Quo(&o.Scale.Value, &a.Scale.Value)
+		if cs.gint {
+			vAssert(ratio.Cmp(new(big.Float).SetInt64(1)) == 0, tag+"-Gaussian-integer-constant-leaves-the-scale-unchanged")
+		} else {
+			vAssert(ratio.Cmp(new(big.Float).SetUint64(r.SubRings[level].Modulus)) == 0 || !vIsAlgebraic(), tag+"-fractional-constant-is-lifted-by-the-top-prime")
+			vAssert(ratio.Cmp(new(big.Float).SetInt64(1)) != 0, tag+"-fractional-constant-changes-the-recorded-scale")
+		}
+	}
+	vCover("C06-receivers-constants-reached")
+}
